@@ -4,7 +4,7 @@ import json, subprocess, os
 VERIF = os.path.dirname(os.path.dirname(os.path.abspath(__file__)))
 PROP = {  # commit subject keyword -> property
     "loop-shift computation never terminated": "C05",
-    "the listing": "C12", "listing printed": "C12", "listing named": "C12", "listing gave": "C12", "avx listing": "C12",
+    "the listing": "C12", "NEON listing": "C12", "listing printed": "C12", "listing named": "C12", "listing gave": "C12", "avx listing": "C12",
     "avx sqrtf was emitted as a three-operand": "C12",
     "ldreslinl advanced its source pointer with a 64-bit lea": "C12",
     "registered in the SSE 4.1 rule set": "C11",
